@@ -37,6 +37,8 @@ static std::string showList(const Array<String>& a)
 }
 
 static String S(const Exact& e) { return String(e.p, (int)e.n); }
+// two API variants of the same query (String& / const char* overloads) must agree
+static std::string both(const std::string& a, const std::string& b) { return a == b ? a : "variant-mismatch " + a + " / " + b; }
 static std::string b2s(bool b) { return b ? "1" : "0"; }
 static int sgn(int x) { return x < 0 ? -1 : x > 0 ? 1 : 0; }
 
@@ -144,8 +146,8 @@ static std::string step(const Toks& t)
 	if (op == "get" && na == 0) return show(c);
 	if (op == "copy" && na == 0) { String* k = new String(c); std::string r = show(*k); delete k; return r; }
 	// ---- in-place mutations
-	if (op == "assign" && na == 1) { Exact d(unhex(t[1])); String e = S(d); c = e; return show(c); }
-	if (op == "append" && na == 1) { Exact d(unhex(t[1])); String e = S(d); c += e; return show(c); }
+	if (op == "assign" && na == 1) { Exact d(unhex(t[1])); if (d.n % 2) { c = (const char*)d.p; } else { String e = S(d); c = e; } return show(c); }
+	if (op == "append" && na == 1) { Exact d(unhex(t[1])); if (d.n % 2) { c += (const char*)d.p; } else { String e = S(d); c += e; } return show(c); }
 	if (op == "appendc" && na == 1) { c += (char)num(t[1]); return show(c); }
 	if (op == "appendint" && na == 1) { c << (int)num(t[1]); return show(c); }
 	if (op == "appendself" && na == 2) { int off, n; piece(c.length(), num(t[1]), num(t[2]), off, n); c.append(c.data() + off, n); return show(c); }
@@ -174,13 +176,17 @@ static std::string step(const Toks& t)
 		for (size_t i = 0; i < out.size(); i++) r += " " + hex(out[i].first) + ":" + hex(out[i].second);
 		return r;
 	}
-	if (op == "indexof" && na == 2) { Exact d(unhex(t[1])); int i0 = (int)(num(t[2]) % (c.length() + 1)); return str(c.indexOf((const char*)d.p, i0)); }
-	if (op == "indexofc" && na == 2) { int i0 = (int)(num(t[2]) % (c.length() + 1)); return str(c.indexOf((char)num(t[1]), i0)); }
+	if (op == "indexof" && na == 2) { Exact d(unhex(t[1])); int i0 = (int)(num(t[2]) % (c.length() + 1)); return both(str(c.indexOf((const char*)d.p, i0)), str(c.indexOf(S(d), i0))); }
+	if (op == "indexofc" && na == 2) {
+		int i0 = (int)(num(t[2]) % (c.length() + 1)); int r = c.indexOf((char)num(t[1]), i0);
+		if (i0 == 0 && c.contains((char)num(t[1])) != (r >= 0)) return "variant-mismatch contains(char)";
+		return str(r);
+	}
 	if (op == "lastc" && na == 1) return str(c.lastIndexOf((char)num(t[1])));
 	if (op == "last" && na == 1) { Exact d(unhex(t[1])); if (d.n == 0) return "err empty"; return str(c.lastIndexOf((const char*)d.p)); }
-	if (op == "contains" && na == 1) { Exact d(unhex(t[1])); return b2s(c.contains(S(d))); }
-	if (op == "starts" && na == 1) { Exact d(unhex(t[1])); return b2s(c.startsWith(S(d))); }
-	if (op == "ends" && na == 1) { Exact d(unhex(t[1])); return b2s(c.endsWith(S(d))); }
+	if (op == "contains" && na == 1) { Exact d(unhex(t[1])); return both(b2s(c.contains(S(d))), b2s(c.contains((const char*)d.p))); }
+	if (op == "starts" && na == 1) { Exact d(unhex(t[1])); return both(b2s(c.startsWith(S(d))), b2s(c.startsWith((const char*)d.p))); }
+	if (op == "ends" && na == 1) { Exact d(unhex(t[1])); return both(b2s(c.endsWith(S(d))), b2s(c.endsWith((const char*)d.p))); }
 	if (op == "startsc" && na == 1) return b2s(c.startsWith((char)num(t[1])));
 	if (op == "endsc" && na == 1) return b2s(c.endsWith((char)num(t[1])));
 	if (op == "cmp" && na == 1) {
@@ -197,7 +203,7 @@ static std::string step(const Toks& t)
 		return show(c.substr((int)i, (int)n));
 	}
 	if (op == "trimmed" && na == 0) return show(c.trimmed());
-	if (op == "concat" && na == 1) { Exact d(unhex(t[1])); String e = S(d); return show(c + e); }
+	if (op == "concat" && na == 1) { Exact d(unhex(t[1])); String e = S(d); return both(show(c + e), show(c + (const char*)d.p)); }
 	if (op == "concatc" && na == 1) return show(c + (char)num(t[1]));
 	if (op == "rconcat" && na == 1) { Exact d(unhex(t[1])); return show((const char*)d.p + c); }
 	if (op == "split" && na == 1) { Exact d(unhex(t[1])); if (d.n == 0) return "err empty"; return showList(c.split(S(d))); }
